@@ -377,7 +377,9 @@ def install(E):
     def put_bytes(E, st, os_, data):
         r = rec(st, os_, write=True)
         if r is None:
-            sink = st.user.get("sinks")
+            o = st.mem.get(os_.obj) if isinstance(os_, Ptr) else None
+            if o is not None and (o.name or "") in ("@_ZSt4cerr", "@_ZSt4cout", "@_ZSt4clog"):
+                return os_          # the process' standard streams: diagnostics only, discarded
             raise EngineError("output to an object that is not a modelled stream")
         r["buf"].extend(data)
         sync_out(E, st, os_, r)
